@@ -291,6 +291,12 @@ def run(tier, seed):
         else:
             run.violation({"kind": "alias_" + clause, "family": t.get("family"), "classes": t["classes"], "query": q})
     run.sample(traces[40])
+    clean = next(t for t in traces if t["tid"] not in {r[0] for r in rejected} and any(q["result"] > 0 for q in t["queries"]))
+
+    def corrupt(t):
+        q = next(q for q in t["queries"] if q["result"] > 0)
+        q["result"] = 0
+    common.assert_binding_live(run, "TraceAlias", "TraceAlias.cfg", clean, corrupt, "a resolved query recorded as ValueError")
     run.sample({"live_registry": traces[ntab]["family"], "classes": [c["name"] for c in traces[ntab]["classes"]], "queries": traces[ntab]["queries"][:6]})
     from_arg_table(run)
     config_trees(run, tier, rng)
